@@ -376,8 +376,63 @@ let run_tokwf dir =
   let t = load_tok_tables dir "" in
   print_endline (if TokWF.tables_wf t then "true" else "false")
 
+(* ---------------- v1 tokenizer and candidate ranges ---------------- *)
+let load_cls dir =
+  let pairs f = List.filter_map (fun l -> match List.filter (fun x -> x <> "") (fields l) with
+      | [a; b] -> Some (n_of_int (int_of_string a), n_of_int (int_of_string b)) | _ -> None) (read_lines (Filename.concat dir f)) in
+  { Tok1.is_space1 = TokTables.in_ranges (pairs "unicode.spaces"); is_punct1 = TokTables.in_ranges (pairs "unicode.puncts") }
+
+let run_tok1 dir fixed =
+  let u = load_cls dir in
+  iter_lines (fun line ->
+    let bs = List.map n_of_int (ints_of_line line) in
+    List.iter (fun t ->
+      pr "%d:" (int_of_n t.Tok1.t_off);
+      List.iteri (fun i b -> if i > 0 then pr "."; pr "%d" (int_of_n b)) t.Tok1.t_text; pr " ")
+      (Tok1.tokenize u fixed bs);
+    flush_line ())
+
+let run_ranges () =
+  iter_lines (fun line ->
+    match String.split_on_char '|' line with
+    | [_len; toks; ms] ->
+      let toks = List.filter_map (fun f -> match String.split_on_char ':' f with
+          | [o; l] -> Some { Tok1.t_text = List.init (int_of_string l) (fun _ -> n_of_int 120); t_off = n_of_int (int_of_string o) }
+          | _ -> None) (List.filter (fun x -> x <> "") (fields toks)) in
+      let ms = List.filter_map (fun f -> match String.split_on_char ',' f with
+          | [a; b; c; d] -> Some { Tok1.ss = z_of_int (int_of_string a); se = z_of_int (int_of_string b);
+                                   ts = z_of_int (int_of_string c); te = z_of_int (int_of_string d) }
+          | _ -> None) (List.filter (fun x -> x <> "") (fields ms)) in
+      List.iter (fun c ->
+        List.iter (fun r -> pr "%d-%d>%d-%d," (int_of_z r.Tok1.ss) (int_of_z r.Tok1.se) (int_of_z r.Tok1.ts) (int_of_z r.Tok1.te)) c;
+        (match Tok1.target_range toks c with
+         | Some (a, b) -> pr "@%d-%d" (int_of_n a) (int_of_n b)
+         | None -> pr "@PANIC");
+        pr ";") (Tok1.candidates_from_sorted ms);
+      flush_line ()
+    | _ -> flush_line ())
+
+let run_span fix =
+  iter_lines (fun line ->
+    match String.split_on_char '|' line with
+    | [ulen; toks; occ] ->
+      let toks = List.filter_map (fun f -> match String.split_on_char ':' f with
+          | [o; l] -> Some { Tok1.t_text = List.init (int_of_string l) (fun _ -> n_of_int 120); t_off = n_of_int (int_of_string o) }
+          | _ -> None) (List.filter (fun x -> x <> "") (fields toks)) in
+      (match List.filter (fun x -> x <> "") (fields occ) with
+       | [a0; a1] ->
+         (match Matcher1.exact_span fix toks (z_of_int (int_of_string (String.trim ulen))) (z_of_int (int_of_string a0)) (z_of_int (int_of_string a1)) with
+          | Matcher1.XPanic -> pr "XPanic"
+          | Matcher1.XSpan (o, e) -> pr "XSpan %d %d" (int_of_z o) (int_of_z e))
+       | _ -> pr "BAD");
+      flush_line ()
+    | _ -> flush_line ())
+
 let () =
   match Sys.argv with
+  | [| _; "span"; v |] -> run_span (v = "fixed")
+  | [| _; "tok1"; dir; v |] -> run_tok1 dir (v = "fixed")
+  | [| _; "ranges" |] -> run_ranges ()
   | [| _; "tokwf"; dir |] -> run_tokwf dir
   | [| _; "normalize"; dir; "amps" |] -> run_normalize dir "amps" ""
   | [| _; "normalize"; dir; "run"; uefile |] -> run_normalize dir "run" uefile
